@@ -10,7 +10,7 @@ namespace Droop.C17
 open Droop Droop.Options
 
 /-- the only way `Options.parse` fails is the usage error -/
-theorem parseOne_error_is_usage (acc : Dict × Option String) (rn : List String) (opt : String) (e : OErr)
+theorem parseOne_fails_only_on_second_path (acc : Dict × Option String) (rn : List String) (opt : String) (e : OErr)
     (h : parseOne acc rn opt = .error e) : ∃ p, acc.2 = some p ∧ p ≠ "" := by
   unfold parseOne at h
   split at h
